@@ -33,7 +33,7 @@ def const_line(k, v):
 
 
 def mc(res, work, module, name, consts, invariants, properties=(), spec="Spec", timeout=900, constraint=None,
-       extra_defs="", workers=8):
+       extra_defs="", workers=8, coverage=True):
     d = os.path.join(work, "mc_%s_%s" % (module, name))
     os.makedirs(d, exist_ok=True)
     mod = os.path.join(d, "MC.tla")
@@ -51,7 +51,7 @@ def mc(res, work, module, name, consts, invariants, properties=(), spec="Spec", 
         if constraint:
             f.write("CONSTRAINT %s\n" % constraint)
         f.write("CHECK_DEADLOCK FALSE\n")
-    r = tlc.run(mod, cfg, d, workers=workers, timeout=timeout, coverage=True, heap="8g")
+    r = tlc.run(mod, cfg, d, workers=workers, timeout=timeout, coverage=coverage, heap="8g")
     rec = dict(name="%s/%s" % (module, name), states=r.distinct, transitions=r.generated, ok=r.ok,
                violated=r.violated, wall_s=round(r.wall, 1), constants=consts, spec=spec,
                invariants=list(invariants), properties=list(properties),
